@@ -28,6 +28,7 @@ fn groups_for(prop: &str, ctx: &Ctx) -> Vec<Box<dyn Group>> {
         "C17" => vec![Box::new(c17::Hist::new(ctx))],
         "C08" => vec![Box::new(c08::Framing)],
         "C20" => vec![Box::new(c20::Pair::new()), Box::new(c20::MuxStreams::new())],
+        "C10" => vec![Box::new(c10::Nested)],
         _ => vec![],
     }
 }
